@@ -375,9 +375,9 @@ func (c *control) dirPercent(colon, at bool, params []any) {
 	if 0 < len(params) {
 		switch tp := params[0].(type) {
 		case int:
-			n = tp
+			n = c.boundParam(tp)
 		case slip.Integer:
-			n = int(tp.RealValue())
+			n = c.boundParam(int(tp.RealValue()))
 		default:
 			c.invalidDirParam(c.str, c.pos)
 		}
@@ -392,9 +392,9 @@ func (c *control) dirAmp(colon, at bool, params []any) {
 	if 0 < len(params) {
 		switch tp := params[0].(type) {
 		case int:
-			n = tp
+			n = c.boundParam(tp)
 		case slip.Integer:
-			n = int(tp.RealValue())
+			n = c.boundParam(int(tp.RealValue()))
 		default:
 			c.invalidDirParam(c.str, c.pos)
 		}
@@ -485,10 +485,10 @@ func (c *control) dirMove(colon, at bool, params []any) {
 	if 0 < len(params) {
 		switch tp := params[0].(type) {
 		case int:
-			n = tp
+			n = c.boundParam(tp)
 			changed = true
 		case slip.Integer:
-			n = int(tp.RealValue())
+			n = c.boundParam(int(tp.RealValue()))
 			changed = true
 		default:
 			c.invalidDirParam(c.str, c.pos)
@@ -1437,9 +1437,9 @@ func (c *control) dirTilde(colon, at bool, params []any) {
 	if 0 < len(params) {
 		switch tp := params[0].(type) {
 		case int:
-			n = tp
+			n = c.boundParam(tp)
 		case slip.Integer:
-			n = int(tp.RealValue())
+			n = c.boundParam(int(tp.RealValue()))
 		default:
 			c.invalidDir(c.str, c.pos)
 		}
@@ -1454,9 +1454,9 @@ func (c *control) dirCond(colon, at bool, params []any) {
 	if 0 < len(params) {
 		switch tp := params[0].(type) {
 		case int:
-			n = tp
+			n = c.boundParam(tp)
 		case slip.Integer:
-			n = int(tp.RealValue())
+			n = c.boundParam(int(tp.RealValue()))
 		default:
 			c.invalidDir(c.str, c.pos)
 		}
@@ -1672,9 +1672,9 @@ func (c *control) dirPage(colon, at bool, params []any) {
 	if 0 < len(params) {
 		switch tp := params[0].(type) {
 		case int:
-			n = tp
+			n = c.boundParam(tp)
 		case slip.Integer:
-			n = int(tp.RealValue())
+			n = c.boundParam(int(tp.RealValue()))
 		default:
 			c.invalidDir(c.str, c.pos)
 		}
@@ -1693,18 +1693,28 @@ func (c *control) getIntParam(pos int, params []any, defVal int, notNeg bool) in
 			if notNeg && tp < 0 {
 				slip.ErrorPanic(c.scope, 0, "directive parameter is negative at %d of %q", c.pos, c.str)
 			}
-			return tp
+			return c.boundParam(tp)
 		case slip.Integer:
 			n := int(tp.RealValue())
 			if notNeg && n < 0 {
 				slip.ErrorPanic(c.scope, 0, "directive parameter is negative at %d of %q", c.pos, c.str)
 			}
-			return n
+			return c.boundParam(n)
 		default:
 			c.invalidDir(c.str, c.pos)
 		}
 	}
 	return defVal
+}
+
+// boundParam raises an error for a numeric directive parameter, a column
+// count or a repeat count, beyond the array dimension limit. Output of that
+// size can not be built.
+func (c *control) boundParam(n int) int {
+	if slip.ArrayMaxDimension < n || n < -slip.ArrayMaxDimension {
+		slip.ErrorPanic(c.scope, 0, "directive parameter %d is too large at %d of %q", n, c.pos, c.str)
+	}
+	return n
 }
 
 func (c *control) getCharParam(pos int, params []any, defVal []byte) []byte {
